@@ -12,7 +12,7 @@
     ([OReload]), from an empty wallet with ANY scrypt parameters.
 
     The full statement [c38_full_statement] is FALSE of the current code: three defects, each with
-    a witness ([c38_refuted_*]; the driver replays them on the implementation on every run).
+    a witness ([c38_*_refuted]; the driver replays them on the implementation on every run).
     What is proved is the statement for every history that contains no operation of a finding
     class ([c38_wallet_persists_partial]); nothing else is missing from the full statement. *)
 From Coq Require Import List String NArith.
@@ -96,30 +96,30 @@ Print Assumptions c38_failed_operation_changes_nothing.
     keypair.GetScryptParameters() whatever walletData.Scrypt says, getAccount decrypts with
     walletData.Scrypt: on a wallet with the low-security parameters of `account export
     --low-security` a new account does not open with its password (before or after a reload). *)
-Theorem c38_refuted_newaccount_scrypt :
+Theorem c38_newaccount_scrypt_refuted :
   caller_ok N iblob ienc idec (init iblob low_security_scrypt) wit_newaccount /\
   ~ iprop low_security_scrypt wit_newaccount.
 Proof. exact (conj wit_newaccount_caller_ok wit_newaccount_fails). Qed.
-Print Assumptions c38_refuted_newaccount_scrypt.
+Print Assumptions c38_newaccount_scrypt_refuted.
 
 (** KNOWN FINDING import:duplicate-address. ImportAccount does not refuse an address the wallet
     holds: the slice gets two entries, accAddrs points to the second, DeleteAccount removes the
     FIRST from the slice (the default account) and the address from accAddrs: the client then
     shows no account, the reloaded file shows one, and no default account is left on file. *)
-Theorem c38_refuted_duplicate_import :
+Theorem c38_duplicate_import_refuted :
   caller_ok N iblob ienc idec (init iblob default_scrypt) wit_dup_import /\
   ~ iprop default_scrypt wit_dup_import.
 Proof. exact (conj wit_dup_import_caller_ok wit_dup_import_fails). Qed.
-Print Assumptions c38_refuted_duplicate_import.
+Print Assumptions c38_duplicate_import_refuted.
 
 (** KNOWN FINDING chpwd:empty-new-password. ChangePassword accepts an empty new password (NewAccount
     refuses one); DecryptWithCustomScrypt refuses every empty password: the account no longer
     opens with its current password. *)
-Theorem c38_refuted_empty_new_password :
+Theorem c38_empty_new_password_refuted :
   caller_ok N iblob ienc idec (init iblob default_scrypt) wit_empty_pwd /\
   ~ iprop default_scrypt wit_empty_pwd.
 Proof. exact (conj wit_empty_pwd_caller_ok wit_empty_pwd_fails). Qed.
-Print Assumptions c38_refuted_empty_new_password.
+Print Assumptions c38_empty_new_password_refuted.
 
 Theorem c38_full_statement_refuted : ~ c38_full_statement.
 Proof.
@@ -127,6 +127,21 @@ Proof.
   exact (H N iblob ienc idec ideal_instance default_scrypt wit_dup_import wit_dup_import_caller_ok).
 Qed.
 Print Assumptions c38_full_statement_refuted.
+
+(** Observation outside the property's text (no finding is registered for it): the reloaded client is
+    NOT behaviourally identical to the client in memory. SetLabel(addr, "") leaves an entry
+    accLabels[""] that load() does not rebuild; no getter shows it (the theorem above covers all
+    getters), but a later SetLabel(other, "") is refused before the reload and accepted after it. *)
+Theorem c38_note_reload_not_bisimilar :
+  let ops := [OImport N "x" "A1" "02a1" 1 0 "P-256" default_scrypt "pw" 1%N;
+              OImport N "y" "A2" "02a2" 1 0 "P-256" default_scrypt "pw" 2%N;
+              OSetLabel N "A1" ""] in
+  let w := fst (fst (irun default_scrypt ops)) in
+  history_in_finding_class N iblob ienc idec (init iblob default_scrypt) ops = false /\
+  snd (step N iblob ienc idec w (OSetLabel N "A2" "")) = EDupLabel /\
+  snd (step N iblob ienc idec (reload iblob w) (OSetLabel N "A2" "")) = ROk.
+Proof. vm_compute. repeat split. Qed.
+Print Assumptions c38_note_reload_not_bisimilar.
 
 (** Non-vacuity: a history outside the finding classes in which every kind of operation succeeds
     at least once (two creations, an import, relabel, default change, password change, scheme
